@@ -358,6 +358,8 @@ fn numeric_extreme(rng: &mut Rng) -> String {
     if rng.chance(1, 3) { n = "9".repeat(digits); }
     if rng.chance(1, 3) { n = match rng.below(4) { 0 => "9223372036854775807".into(), 1 => "9223372036854775808".into(), 2 => "18446744073709551615".into(), _ => "18446744073709551616".into() }; }
     let neg = if rng.chance(1, 3) { "-" } else { "" };
+    // a sign in front of zero: a number for an index, not for a width or a group
+    if rng.chance(1, 8) { n = rng.pick(&["0", "00", "000"]).to_string(); }
     match rng.below(9) {
         0 => format!("{{{neg}{n}}}"),
         1 => format!("{{{neg}{n}..}}"),
